@@ -277,6 +277,10 @@ def gen_object_cases(chk):
         if k % 4 != 0:
             a = round(rng.uniform(-9.0, 5.0), 2)
             vdom = [a, round(a + rng.uniform(1.5, 9.0), 2)]
+            if k % 4 == 2 or k % 8 == 5:
+                # ends that need all 17 digits (multiples of sqrt 2): the grid points of a general spline are rounded to 15 decimals
+                # and its end points then differ from the ends of the spline's domain by an ulp
+                vdom = [-rng.randint(1, 6) * math.sqrt(2.0), rng.randint(1, 6) * math.sqrt(2.0) * rng.choice([1.0, 0.5])]
         cases.append({'seed': chk.seed * 37 + k, 'npts': [5, 7, 7, nv], 'degrees': [3, 3, 3, degv], 'uniform': uni,
                       'edge': ['fEq', 'null', 'periodic'][k % 3], 'nruns': 14 if big else 7, 'k': k, 'vdom': vdom})
     return cases
